@@ -104,6 +104,14 @@ class GenericRules(unittest.TestCase):
         self.assertEqual(self.run_named("falsy_defaults", "or_default"), ["VIOLATED"])
         self.assertEqual(self.run_named("falsy_defaults", "none_default"), ["DISCHARGED"])
 
+    def test_fill_through_a_flattening_that_may_copy(self):
+        self.assertEqual(self.run_named("fills_through_a_copy", "fill_through_ravel_of_like"), ["VIOLATED"])
+        self.assertEqual(self.run_named("fills_through_a_copy", "fill_through_ravel_of_empty"), ["DISCHARGED"])
+
+    def test_conversion_to_another_arrays_dtype(self):
+        self.assertEqual(self.run_named("foreign_dtype_casts", "cast_to_foreign_dtype"), ["VIOLATED"])
+        self.assertEqual(self.run_named("foreign_dtype_casts", "cast_to_own_or_promoted_dtype"), ["DISCHARGED"])
+
     def test_gather_with_the_permutation_itself_is_reported(self):
         self.assertEqual(self.run_rule("nested_windows_wrong"), ["VIOLATED"])
 
